@@ -4,7 +4,8 @@ NA["C17"] = ("identity between solved parameter values and the values that produ
 claim("C14", "translation_validation", "per-rule automata equivalence (grammar NFA vs decompiled ATN), artefact identity, generated-code event comparison",
       "Decides language equality between blackbird.g4 and the automata the shipped Python/C++ recognisers interpret: all ATN copies identical (A1), vocabularies agree (A2), "
       "every parser and lexer rule's ATN sub-machine is language-equivalent to the grammar rule (A3/A4, decided on determinised automata, exhaustive over all strings), "
-      "generated classes wire the stock simulators to that ATN (A5), C++ and Python rule functions have identical event sequences (K2), listener/context dispatch complete (K3).",
+      "generated classes wire the stock simulators to that ATN (A5), each Python rule method is language-equivalent to its ATN sub-machine (K1) and its LL(1) token tests, adaptivePredict decision numbers and "
+      "state numbers are those of the ATN (K1b: own LL(1) LOOK analysis), C++ and Python rule functions have identical event sequences (K2), listener/context dispatch complete (K3).",
       "Trusted: antlr4 4.9.2 runtimes implement maximal-munch/first-rule lexing and ALL(*) parsing over the ATN they are given; ANTLR's left-recursion rewrite as documented.",
       "DESIGN.md 4.1-4.3, 5/C14")
 
